@@ -325,6 +325,14 @@ def standard_flow(ctx, spec):
         for m in au["missing_theorems"]:
             proof_problems.append("required theorem missing: " + m)
         ctx.note("audit: %d theorems, %d problems" % (len(au["obligations"]), len(proof_problems)))
+    # thorough tier: independent re-check of the compiled property module by leanchecker
+    leanchk = None
+    if ok and ctx.tier == "thorough":
+        r = sh(["lake", "env", "leanchecker", spec.props_module], cwd=LEAN, timeout=1800)
+        leanchk = (r.returncode == 0)
+        ctx.note("leanchecker %s: %s" % (spec.props_module, "ok" if leanchk else "FAILED"))
+        if not leanchk:
+            proof_problems.append("leanchecker rejects %s: %s" % (spec.props_module, (r.stdout + r.stderr)[-400:]))
     n_obl = max(len(au["obligations"]), len(spec.required_theorems))
     n_dis = sum(1 for o in au["obligations"] if o["ok"]) if not proof_problems or ok else 0
     if any(p.startswith("forbidden") or p.startswith("required") for p in proof_problems):
@@ -376,7 +384,7 @@ def standard_flow(ctx, spec):
                 "trusted_base": spec.trusted_base,
                 "theorems": [{"name": o["theorem"], "axioms": o["axioms"]} for o in au["obligations"]],
                 "lean_files_audited": au["files"],
-                "proof_problems": proof_problems}
+                "proof_problems": proof_problems, "leanchecker": leanchk}
     coverage.update(cov)
     if "samples" not in coverage:
         coverage["samples"] = [o["theorem"] for o in au["obligations"][:5]] or ["none"]
